@@ -90,6 +90,7 @@ class Drv:
         os.makedirs(SCRATCH_ROOT, exist_ok=True)
         self.dir = tempfile.mkdtemp(prefix="d", dir=SCRATCH_ROOT)
         env = dict(os.environ)
+        env.update(getattr(self, "extra_env", None) or {})      # e.g. MALLOC_PERTURB_ for the heap-garbage differential of C06
         if self.variant == "san":
             env.update(SAN_ENV)
         self.errpath = os.path.join(self.dir, "stderr.txt")
